@@ -34,6 +34,46 @@ ASSUMPTIONS = [
     "convert.py, output.py, attribute.py and the matcher are out of reach of "
     "a static argument",
 ]
+# rules/c01_flags.py (R1.20, R1.21)
+EXPLANATION += (
+    "  R1.20 (rules/c01_flags.py) class-wide facts are MRO-wide: every "
+    "iteration over an MRO in abstract/class_mixin.py ranges over the whole "
+    "`X.mro` (forward/reversed) or all proper ancestors `X.mro[1:]` - another "
+    "slice or a single element picked by index (other than [0]/[-1]) is a "
+    "violation, because the tail of a C3 linearisation is not the "
+    "linearisation of its first element; and the class flag "
+    "compare.compatible_with trusts for 'always truthy' (read off the guard "
+    "of its `return logical_value`) is produced in class_mixin.py by an "
+    "own-attribute test for BOTH __bool__ and __len__ on every element of the "
+    "full self.mro (loop or any(..) form), or copied from self.base_cls of a "
+    "ParameterizedClass; copying the flag cached on mro[k] / a base is a "
+    "violation.  R1.21 handing out a member variable invalidates the owner's "
+    "deep memo: SimpleValue.update_caches resets every memo field that "
+    "get_fullhash / get_type_key fill, `force` bypasses the change-stamp "
+    "comparison, and in attribute.py every `return .., obj.members[..]` "
+    "(also through a local, by reaching definitions) is dominated by "
+    "obj.update_caches(force=<true constant>) on the same object.  Blind "
+    "spots: R1.20(b) understands loop / any() scans with `in "
+    "X.get_own_attributes()`, `&`, .intersection/.isdisjoint tests, anything "
+    "else is an analysis error; own-table tests elsewhere in the package "
+    "(overlays) are not inventoried - most are intentionally 'defined "
+    "here'.  R1.21 is a necessary condition of a protocol that is itself "
+    "incomplete: the memoised full hash descends into member values while "
+    "the change stamps that validate it are one level deep, so a nested "
+    "object mutated through a reference obtained BEFORE the memo was taken "
+    "(`i = o.inner; f(o); i.x = 'text'; f(o)`) is not noticed - true of "
+    "today's tree (second call answered from the call cache, `int` inferred "
+    "for a str); the rule that states this (R1.22) is parked in "
+    "rules/pending_c01_deep_memo.py because it fires today.")
+ASSUMPTIONS += [
+    "R1.20: truthiness of an instance is decided by __bool__, then __len__ "
+    "(data model); Class.get_own_attributes() is the own-member table of a "
+    "class; non-Class MRO entries (Unsolvable/Unknown) may be skipped",
+    "R1.21: attribute._get_member is the only place that hands a member "
+    "Variable of an arbitrary object to the VM for reading (functions of "
+    "attribute.py returning `<param>.members[..]` are searched, other "
+    "modules are not)",
+]
 
 VM = "pytype/vm.py"
 
